@@ -182,10 +182,6 @@ def install_values(w):
                params={"coerced_values": "recdict", "name": "str", "input_value": "ref:GraphQLArgument",
                        "on_error": "opaque", "hide_suggestions": "bool"},
                ensures=[], raises=["GraphQLError"], ghost_calls=["defaulted"], assumed=True)
-    w.contract("graphql.utilities.coerce_input_value.coerce_input_literal",
-               params={"value_node": "ref:ValueNode", "type_": "ty", "variable_values": "opaque",
-                       "fragment_variable_values": "opaque"},
-               returns="dyn", ensures=[], raises=[], ghost_calls=["literal_coerced"], assumed=True)
     w.contract("graphql.utilities.validate_input_value.validate_input_literal",
                params={"value_node": "ref:ValueNode", "type_": "ty", "on_error": "opaque",
                        "variables": "opaque", "fragment_variable_values": "opaque",
@@ -219,8 +215,9 @@ def install_values(w):
                    " and not is_undefined(store_val(coerced_values, 0))"
                    " and key_is_out_name(store_key(coerced_values, 0), arg_def, arg_name))",
                ],
-               raises=["GraphQLError"], ghost_modifies=["defaulted", "literal_coerced"], modifies=[],
-               props={"C02", "C13"})
+               # GraphQLError, or whatever a user supplied out_type raises inside literal coercion
+               raises=["GraphQLError", "Exception"], ghost_modifies=["defaulted", "literal_coerced"],
+               modifies=[], valid_schema=True, props={"C02", "C13"})
 
 
 _inst_prev3 = install
